@@ -126,5 +126,39 @@ def r15_3(ctx):
     return r
 
 
+def r15_4(ctx):
+    """RFC 3550 6.5: every SDES chunk's item list is terminated by at least one null octet, THEN padded to a
+    32-bit boundary. The parser (and every other implementation) finds the end of a chunk only through that
+    octet, so a chunk whose items happen to end on a boundary still needs it."""
+    r = RuleResult("R15.4", "K4", "every SDES chunk written ends with an end-of-list octet")
+    fn = "rtp::build_sdes_body"
+    b = ctx.body(fn)
+    r.scope.append(fn)
+    loops = b.loops()
+    if not loops:
+        raise core.CheckerError("R15.4: no chunk loop in build_sdes_body")
+    hdr, blocks = max(loops, key=lambda x: len(x[1]))
+    starts = []
+    for sb in blocks:
+        if b.blocks[sb]["t"]["k"] != "switch":
+            continue
+        term, outs = b.switch_info(sb)
+        if term[0] == "discr" and mir.has_call(term[1], "::next") and mir.has_field(term[1], "chunks") and not mir.has_field(term[1], "items"):
+            starts += [tgt for tgt, _, m in outs if m == "Some"]
+    if not starts:
+        raise core.CheckerError("R15.4: cannot find the iteration over sdes.chunks")
+    zero_push = [bi for bi, t, p in core.calls_to(b, suffix("Vec::<T, A>::push"))
+                 if len(t["a"]) == 2 and mir.int_value(b.term_operand(t["a"][1])) == 0]
+    p = b.path_to(starts, hdr, cut_blocks=set(zero_push))
+    if p is None and zero_push:
+        r.ok({"site": b.where(zero_push[0]), "rule": "every path through one chunk passes body.push(0)"})
+    else:
+        r.violate(fn, "sdes:end-of-list", b.where(starts[0]),
+                  "an SDES chunk can be written without the terminating null item (only alignment padding, which is empty when "
+                  "the items end on a 32-bit boundary): the next chunk's SSRC is then parsed as an item",
+                  core.describe_path(b, p) if p else "")
+    return r
+
+
 def run(ctx):
-    return [r15_1(ctx), r15_2(ctx), r15_3(ctx)]
+    return [r15_1(ctx), r15_2(ctx), r15_3(ctx), r15_4(ctx)]
